@@ -4,6 +4,7 @@
 #   make model   extraction + ocaml/modeldrv
 SHELL := /bin/bash
 COQTIMEOUT ?= 3000
+GEN := $(shell bin/gen-build-files)
 VFILES := $(shell grep '\.v$$' coq/_CoqProject)
 MODELV := $(filter-out Props/%,$(VFILES))
 
@@ -14,7 +15,7 @@ all: coq/Makefile.coq
 coq/Makefile.coq: coq/_CoqProject
 	cd coq && coq_makefile -f _CoqProject -o Makefile.coq
 
-ocaml/gen/model.ml: coq/Extract.v $(addprefix coq/,$(MODELV)) | all
+ocaml/gen/model.ml: coq/Extract.v $(addprefix coq/,$(MODELV)) $(wildcard coq/extract/*.list) | all
 	mkdir -p ocaml/gen && cd ocaml/gen && timeout 600 coqc -Q ../../coq A1 ../../coq/Extract.v
 
 ocaml/modeldrv: ocaml/gen/model.ml $(wildcard ocaml/*.ml)
